@@ -7,10 +7,11 @@ MC == INSTANCE MC_Execution WITH Tier <- "trace", opId <- 0, choice <- <<>>
 Rec == ndJsonDeserialize(IOEnv.TRACE)
 VARIABLES l, bad
 vars == <<l, bad>>
-E(w, f) == INSTANCE Execution WITH Schema <- MC!TheSchema, Fragments <- f, World <- w
+\* r.vars: the coerced variable values the real CoerceVariableValues produced for the request
+E(w, f, v) == INSTANCE Execution WITH Schema <- MC!TheSchema, Fragments <- f, World <- w, VarValues <- v
 BagOf(s) == [e \in {s[k] : k \in 1..Len(s)} |-> Cardinality({k \in 1..Len(s) : s[k] = e})]
 LineOK(r) ==
-  LET resp == E(r.world, r.fragments)!Execute([kind |-> r.kind, sels |-> r.sels]) IN
+  LET resp == E(r.world, r.fragments, r.vars)!Execute([kind |-> r.kind, sels |-> r.sels]) IN
     /\ ~r.crash
     /\ resp.data = r.data
     /\ BagOf(resp.errors) = BagOf(r.errors)
